@@ -784,12 +784,20 @@ def unmarshal_array(ct, data, offset, lendian, oobFDs):
 
     while offset < end_offset:
 
+        elem_offset = offset
+
         offset += len(pad[tcode](offset))
 
         nbytes, value = unmarshallers[tcode](
             tsig, data, offset, lendian, oobFDs)
 
         offset += nbytes
+
+        if offset == elem_offset:
+            # An element type that occupies no bytes (e.g. the invalid
+            # empty struct "()") would never reach end_offset
+            raise MarshallingError('Invalid array encoding: zero-size element')
+
         values.append(value)
 
     if not offset == end_offset:
